@@ -90,6 +90,7 @@ def main(argv=None):
     ap.add_argument('--jobs', type=int, default=int(os.environ.get('VERIF_JOBS', '16')))
     ap.add_argument('--only', help='run only units whose name contains this text (debugging; evidence not written)')
     ap.add_argument('-v', action='store_true')
+    ap.add_argument('--list-discharged', action='store_true', help='print the names of all discharged obligations (to build baseline-obligations.txt)')
     a = ap.parse_args(argv)
     prop = a.prop
     seed = int(os.environ.get('VERIF_SEED', '0') or 0)
@@ -116,6 +117,8 @@ def main(argv=None):
         _UNITS = [u for u in _UNITS if a.only in u.name]
     names = [u.name for u in _UNITS]
     assert len(set(names)) == len(names), 'duplicate unit names'
+    from . import engine as _engine
+    _engine.BASELINE = load_baseline()
     res = run_pool(list(range(len(_UNITS))), a.jobs)
 
     # ---- helper (contract) failures: re-verify dependent lemmas with the helper's body inlined (DESIGN 2.7)
@@ -147,6 +150,8 @@ def main(argv=None):
         if u.name.startswith('lemma/') and not r['error'] and not r['out_of_reach'] and r['obligations'] and all(o['status'] == 'discharged' for o in r['obligations']):
             established.add(u.name[len('lemma/'):])
     # ---- classify
+    baseline_names = load_baseline()
+    unknown_baseline = []
     errors, undecided, refuted_prop, helper_open = [], [], [], []
     for i, r in res.items():
         for nm in r.get('lemmas_used', []):
@@ -185,6 +190,8 @@ def main(argv=None):
                 else:
                     helper_open.append((u.name, o['label'], 'refuted'))
             else:
+                if u.level == 'property' and o['kind'] in ('post', 'pre') and ('%s/%s' % (u.name, o['label'])) in baseline_names:
+                    unknown_baseline.append((u, o))
                 undecided.append((u.name, o['label'] + ' unknown'))
 
     # ---- concrete side: replays, witnesses, twins
@@ -224,6 +231,19 @@ def main(argv=None):
             violations.append((path, full, ' no-failing-input-found'))
         else:
             undecided.append((u.name, o['label'] + ' refuted by the solver but the model does not replay on the real code (engine imprecision)'))
+    # an obligation that was discharged on the unchanged tree (committed baseline-obligations.txt) and is not any more,
+    # with no replayable counter-model: reported as a violation of that named obligation, marked no-failing-input-found
+    for u, o in unknown_baseline:
+        full = '%s/%s' % (u.name, o['label'])
+        if any(v[1] == full for v in violations):
+            continue
+        path = os.path.join('replays', '%s-%s.json' % (prop, hashlib.sha1(full.encode()).hexdigest()[:10]))
+        json.dump({'property': prop, 'unit': u.name, 'label': o['label'], 'obligation': full, 'inputs': None, 'solver': o['solver'], 'solver_secs': o['secs'],
+                   'solver_output': 'z3: unknown; cvc5: unknown/unsupported (%s)' % (o.get('detail') or 'no model'),
+                   'note': 'this obligation is on the committed list of obligations discharged on the unchanged tree and can no longer be discharged; '
+                           'the solver produced no counter-model (uninterpreted folds / quantifiers), so there is no input to replay'},
+                  open(os.path.join(VERIF, path), 'w'), indent=1)
+        violations.append((path, full, ' no-failing-input-found'))
     twin_cases = twin_eval = 0
     twin_report = []
     for t in conc['twins']:
@@ -252,6 +272,16 @@ def main(argv=None):
         elif w.get('status') in ('error', 'no-such-unit'):
             errors.append(('known-findings', 'witness %s could not be replayed: %s' % (k['id'], w.get('trace', w.get('status')))))
 
+    if a.list_discharged:
+        for i in sorted(res):
+            u = _UNITS[i]
+            labs = {}
+            for o in res[i]['obligations']:
+                labs.setdefault(o['label'], []).append(o['status'])
+            for lab, sts in sorted(labs.items()):
+                if all(x == 'discharged' for x in sts):
+                    print('BASELINE %s/%s' % (u.name, lab))
+        return 0
     # ---- verdict
     wall = time.time() - t0
     for ln in known_lines:
